@@ -6,7 +6,7 @@
    key-sorted partitions (db_wf) and every operation sequence. *)
 From Coq Require Import List NArith Bool.
 Import ListNotations.
-Require Import RV.Model.C12_Track RV.Model.C12_View RV.Proof.C12_Drain RV.Proof.C12_Main RV.Proof.C12_Ops RV.Proof.C12_Track.
+Require Import RV.Model.C12_Track RV.Model.C12_View RV.Proof.C12_Drain RV.Proof.C12_Main RV.Proof.C12_Ops RV.Proof.C12_Track RV.Proof.C12_Updates.
 Open Scope N_scope.
 
 (* every run of every operation sequence conforms to the view specification: reads and removes return
@@ -39,6 +39,16 @@ Proof. exact drain_ok. Qed.
 Theorem C12_scan_sorted : forall db t s n p limit, db_wf db -> reach db t s ->
   snd (fst (scan_sorted db t n p limit)) = firstn (N.to_nat limit) (v_view s n p) /\ sorted (v_view s n p).
 Proof. exact scan_sorted_ok. Qed.
+
+(* the state changes produced at the end are exactly the overlaid differences: committing the
+   final StateUpdates (Delta = set/delete per key) to the base database gives, at every key of every
+   partition not marked by delete_partition, exactly the view. (A partition marked for deletion is
+   reset and then holds only the values written in this transaction; partition deletion belongs to
+   C07 and is covered here by correspondence only.) *)
+Theorem C12_state_updates_exact : forall db t s n p k, db_wf db -> reach db t s ->
+  iset_mem (n, p) (v_del s) = false ->
+  apply_su (snd (to_state_updates t)) db n p k = al_get k (v_view s n p).
+Proof. exact state_updates_exact. Qed.
 
 (* force_write panics exactly when the substate has no tracked entry (it was never loaded) *)
 Theorem C12_force_write_panics_iff : forall t n p k,
@@ -80,6 +90,7 @@ Print Assumptions C12_read_your_writes.
 Print Assumptions C12_scan_keys.
 Print Assumptions C12_drain.
 Print Assumptions C12_scan_sorted.
+Print Assumptions C12_state_updates_exact.
 Print Assumptions C12_force_write_panics_iff.
 Print Assumptions C12_revert.
 Print Assumptions C12_read_after_revert_refuted.
